@@ -331,10 +331,30 @@ def _is_checked(P, v, call):
     return any(a[0] == "cmp" and a[2][0] in ("call", "icall") and a[2][3] == call.id for (a, p) in v.atoms)
 
 
+def clause4_ws_connection(ctx, P, cg):
+    """a websocket's connection is released in ONE place, which also clears the pointer (the tombstone send_frame() tests): any
+    other function that frees ws->connection leaves the pointer dangling for the 'peer shuts down' answers of the teardown"""
+    n = 0
+    for f in P.own_functions():
+        for c in f.calls("free_connection"):
+            t = P.term(f, c.a[0])
+            if not Q.mentions(t, lambda x: x[0] == "field" and x[2] == "struct.websocket" and x[3] == "connection"):
+                continue
+            n += 1
+            cleared = any(i.op == "store" and P.is_null(i.a[0]) and P.term(f, i.a[1])[0] == "field" and P.term(f, i.a[1])[2] == "struct.websocket"
+                          and P.term(f, i.a[1])[3] == "connection" for i in f.all_insts())
+            ctx.ob("C05.2 R-WHO", f, Q.ordinal_site(f, c, P) + ":ws-connection-released-with-tombstone", cleared,
+                   "%s() frees a websocket's connection without clearing websocket.connection: what the teardown sends afterwards "
+                   "(shutdown answers for in-flight requests) goes through the freed connection" % f.srcname)
+    if n < 1:
+        raise AnalysisBroken("no release site of websocket.connection found")
+
+
 def run(ctx):
     for cfg in ctx.configs(["default"] if ctx.tier == "quick" else None):
         P, cg = cfg.P, cfg.cg
         clause1_fini(ctx, P, cg)
         clause2_order(ctx, P, cg)
         clause3_callbacks(ctx, P, cg)
+        clause4_ws_connection(ctx, P, cg)
         c03.clause1_pop(ctx, P)
